@@ -45,4 +45,13 @@ def opSplitParam (j : Json) : Except String Json := do
 def opParamTable (_ : Json) : Except String Json :=
   pure (listJ (fun (e : String × PVal) => listJ id [strJ e.1, pvalJ e.2]) PROFILE_PARAMS)
 
+/-- `Profile.load(gene, file, **kwargs)`: options section of the file, explicit parameters, neutral value of the file -/
+def opParamsLoad (j : Json) : Except String Json := do
+  let opts ← jList (jPair jStr jPyVal) (← field j "options")
+  let kw ← jList (jPair jStr jPyVal) (← field j "kwargs")
+  let nv ← jPyVal (← field j "neutral")
+  match update initState (loadOptions opts kw nv) with
+  | .error n => pure (objJ [("invalid", strJ n)])
+  | .ok (st, _) => pure (objJ [("values", listJ (fun (e : String × PVal) => listJ id [strJ e.1, pvalJ e.2]) st)])
+
 end Aldy.Driver
